@@ -825,9 +825,11 @@ func (vc *VC) heapTypingAxioms(st *State, comp string) {
 			vc.ensureRt()
 			switch meta.kind {
 			case LField, LDeref:
-				vc.axiom(fmt.Sprintf("(forall ((o Int)) (! (< (rt (select %s o)) alloc0) :pattern ((select %s o))))", h, h))
+				// only for objects that themselves existed at entry: the "entry value" of a field of an
+				// object allocated later is meaningless (a callee may have initialised it)
+				vc.axiom(fmt.Sprintf("(forall ((o Int)) (! (=> (< (rt o) alloc0) (< (rt (select %s o)) alloc0)) :pattern ((select %s o))))", h, h))
 			case LElem:
-				vc.axiom(fmt.Sprintf("(forall ((a Int) (i Int)) (! (< (rt (select (select %s a) i)) alloc0) :pattern ((select (select %s a) i))))", h, h))
+				vc.axiom(fmt.Sprintf("(forall ((a Int) (i Int)) (! (=> (< (rt a) alloc0) (< (rt (select (select %s a) i)) alloc0)) :pattern ((select (select %s a) i))))", h, h))
 			case LGlobal:
 				vc.axiom(fmt.Sprintf("(< (rt %s) alloc0)", h))
 			}
